@@ -478,7 +478,7 @@ def handle (toks : List String) : Option String :=
   | "bc" :: rest => BCIO.run rest
   | "ka" :: toks => do
     let evs ← toks.mapM (fun t => match t with
-      | "a" => some KA.PingEvent.pingresp | "n" => some .timeout | "c" => some .parentCancel
+      | "a" => some KA.PingEvent.pingresp | "A" => some .pingresp | "n" => some .timeout | "c" => some .parentCancel
       | "w" => some .writeFail | "e" => some .connEnd | _ => none)
     match KA.keepAlive (evs.map KA.pingOutcome) with
     | .running n => pure s!"pings={n} result=running"
